@@ -132,6 +132,19 @@ def run(ctx):
             queries.append(("Strategy(non-minimal basis)", lambda X=B, g=big: FinitelyManySimplesStrategy(list(X) + [Perm(g)]).applies()))
         for sym in rec["syms"][: (3 if quick else 8)]:
             queries.append(("has_finite_simples(symmetric image)", lambda S=sym: PinWords.has_finite_simples([Perm(p) for p in S])))
+        # the same questions again after the class has been enumerated in this process (levels cached on the shared
+        # class object), and on a class object created after clear_cache: the verdict depends only on the class
+        def after_enumeration(X=B, n=maxn):
+            Av(list(X)).enumeration(n)
+            return Av(list(reversed(X))).has_finitely_many_simples()
+        queries.append(("Av.has_finitely_many_simples after enumeration(%d)" % maxn, after_enumeration))
+        queries.append(("cli simple after enumeration", lambda X=b: cli_simple("_".join("".join(str(v) for v in p) for p in X))))
+        queries.append(("Strategy after enumeration", lambda X=B: FinitelyManySimplesStrategy(X).applies()))
+
+        def after_clear(X=B):
+            Av.clear_cache()
+            return Av(list(X)).has_finitely_many_simples()
+        queries.append(("Av.has_finitely_many_simples after clear_cache", after_clear))
         special_real = PinWords.has_finite_special_simples(list(B))
         if special_real != rec["special"]:
             ctx.violation(dict(base, entry="has_finite_special_simples"), "SpecialFamilies", rec["special"], special_real)
